@@ -44,11 +44,12 @@ PROPS["C01"] = {
              "(tiny alphabets incl. 00/7f/80/ff, empty key, long shared prefixes, lengths around 127/128 and 16383/16384, "
              "'%08x' keys, random bytes) x value shapes (empty .. larger than a block) x 6 compression types x levels x "
              "block sizes x restart intervals x pools x foreign prefixes. Oracle: reader iteration and parsed `mtbl_dump -x` "
-             "output equal the generated sequence / filtered subsequence. A case is non-trivial when the file has >= 2 data "
+             "output (25% of cases: the default quoted output, decoded per the man page) equal the generated sequence / filtered "
+             "subsequence. A case is non-trivial when the file has >= 2 data "
              "blocks, or an entry length >= 128, or an empty key/value, or a key byte >= 0x80, or a non-default "
              "configuration; distinct = distinct FNV-1a hash of the serialised case."),
     "expect_tags": ["multi_block", "len_ge128", "len_ge16k", "empty_key_or_value", "byte_ge80", "entry_gt_block", "pooled",
-                    "foreign_prefix", "explicit_level", "dump_filter_selective", "comp_0", "comp_1", "comp_2", "comp_3",
+                    "foreign_prefix", "explicit_level", "dump_filter_selective", "dump_text_mode", "comp_0", "comp_1", "comp_2", "comp_3",
                     "comp_4", "comp_5"],
     "assumptions": TABLE_ASSUME,
     "tiers": {
@@ -456,7 +457,7 @@ PROPS["C18"] = {
              "with >= 2 chunks, or an iterator destroyed before exhaustion, or a call that reported failure. Distinct by FNV-1a."),
     "expect_tags": ["scn_rw", "scn_merge", "scn_sort", "scn_fileset", "scn_pool", "sorter_multi_chunk", "pooled_sorter",
                     "pooled_sorter_destroyed_with_jobs_in_flight", "iterator_abandoned_before_drained", "call_reported_failure",
-                    "merge_callback_failed", "fileset_dup", "fileset_reloaded", "writers_sharing_a_pool"],
+                    "merge_callback_failed", "fileset_dup", "fileset_reloaded", "fileset_multi_reload", "writers_sharing_a_pool"],
     "assumptions": TABLE_ASSUME,
     "tiers": {
         "quick": [{"mode": "rc", "cases": 600, "max_size": 100}],
@@ -497,7 +498,8 @@ PROPS["C13"] = {
                        "every synchronisation call the choice source decides who runs next and which waiter a signal wakes; spurious "
                        "wake-ups can be injected; 'no enabled thread' is reported as deadlock structurally. Programs: the raw pool API (1-2 "
                        "caller threads with their own result handlers sharing a pool, ordered and unordered jobs), a real pooled writer "
-                       "(output must be byte-identical to the un-pooled writer's), a real pooled sorter (drained, abandoned, or destroyed "
+                       "(output must be byte-identical to the un-pooled writer's), two pooled writers sharing one pool from two caller "
+                       "threads, a real pooled sorter (drained, abandoned, or destroyed "
                        "with jobs in flight). Choice sources: rapidcheck-generated tapes, and depth-first enumeration of ALL schedules "
                        "within a preemption bound for the small-program family."),
         "level_note": TRUST + " Preemption happens only at synchronisation calls (data races between two calls are C14's subject); beyond the preemption bound the search is random.",
@@ -510,7 +512,7 @@ PROPS["C13"] = {
              "small-program family (pool size 1-2, 0-3 jobs/blocks/chunks, ordered/unordered, 1-2 callers); every schedule with at most "
              "`bound` preemptions is executed (counter schedules_explored; distinct by construction); class dfs_complete marks members "
              "whose bounded schedule space was exhausted, dfs_capped those stopped at the execution cap."),
-    "expect_tags": ["prog_1", "prog_2", "prog_3", "preempted", "preemptions_ge3", "two_callers_sharing_pool", "unordered",
+    "expect_tags": ["prog_1", "prog_2", "prog_3", "prog_4", "preempted", "preemptions_ge3", "two_callers_sharing_pool", "unordered",
                     "pool_saturated", "spurious_wakeups_allowed", "dfs_complete"],
     "assumptions": ["programs under test are deterministic given the schedule (pure job callbacks, deterministic compression)"],
     "tiers": {
